@@ -1665,128 +1665,40 @@ DOMNode* DOMRangeImpl::traverseTextNode( DOMNode*n, bool isLeft, int how )
     XMLCh* txtValue = XMLString::replicate(n->getNodeValue(), fMemoryManager);
     ArrayJanitor<XMLCh> janValue(txtValue, fMemoryManager);
 
-    if ( isLeft )
+    // the characters of the node which are inside the range: [from, to)
+    const XMLSize_t len = XMLString::stringLen(txtValue);
+    XMLSize_t from = isLeft ? getStartOffset() : 0;
+    XMLSize_t to   = isLeft ? len : getEndOffset();
+    if (to > len)
+        to = len;
+    if (from > to)
+        from = to;
+
+    DOMNode* newNode = 0;
+    if ( how != DELETE_CONTENTS )
     {
-        XMLSize_t startLen = XMLString::stringLen(fStartContainer->getNodeValue());
-        XMLSize_t offset = getStartOffset();
-
-        if (offset == 0) {
-            if ( how != CLONE_CONTENTS )
-                n->setNodeValue(XMLUni::fgZeroLenString);
-        }
-        else {
-            XMLCh* oldNodeValue;
-            XMLCh oldTemp[4000];
-
-            if (offset >= 3999)  {
-                oldNodeValue = (XMLCh*) fMemoryManager->allocate
-                (
-                    (offset+1) * sizeof(XMLCh)
-                );//new XMLCh[offset+1];
-            }
-            else {
-                oldNodeValue = oldTemp;
-            }
-            XMLString::subString(oldNodeValue, txtValue, 0, offset, ((DOMDocumentImpl *)fDocument)->getMemoryManager());
-
-            if ( how != CLONE_CONTENTS )
-                n->setNodeValue( ((DOMDocumentImpl *)fDocument)->getPooledString(oldNodeValue) );
-
-            if (offset>= 3999)
-                fMemoryManager->deallocate(oldNodeValue);//delete[] oldNodeValue;
-        }
-
-        if ( how==DELETE_CONTENTS )
-            return 0;
-
-        DOMNode* newNode = n->cloneNode( false );
-
-        if (startLen == offset) {
-            newNode->setNodeValue(XMLUni::fgZeroLenString);
-        }
-        else {
-            XMLCh* newNodeValue;
-            XMLCh newTemp[4000];
-
-            if (offset >= 3999)  {
-                newNodeValue = (XMLCh*) fMemoryManager->allocate
-                (
-                    (offset+1) * sizeof(XMLCh)
-                );//new XMLCh[offset+1];
-            }
-            else {
-                newNodeValue = newTemp;
-            }
-            XMLString::subString(newNodeValue, txtValue, offset, startLen, ((DOMDocumentImpl *)fDocument)->getMemoryManager());
-            newNode->setNodeValue( ((DOMDocumentImpl *)fDocument)->getPooledString(newNodeValue) );
-
-            if (offset>= 3999)
-                fMemoryManager->deallocate(newNodeValue);//delete[] newNodeValue;
-
-        }
-        return newNode;
+        newNode = n->cloneNode( false );
+        XMLCh* inside = (XMLCh*) fMemoryManager->allocate
+        (
+            (to - from + 1) * sizeof(XMLCh)
+        );
+        ArrayJanitor<XMLCh> janInside(inside, fMemoryManager);
+        XMLString::subString(inside, txtValue, from, to, fMemoryManager);
+        newNode->setNodeValue( ((DOMDocumentImpl *)fDocument)->getPooledString(inside) );
     }
-    else
+
+    // remove them from the original node; as a deletion, so that the
+    // boundary-points other ranges have in this node are adjusted and
+    // not reset
+    if ( how != CLONE_CONTENTS && to > from )
     {
-        XMLSize_t endLen = XMLString::stringLen(fEndContainer->getNodeValue());
-        XMLSize_t offset = getEndOffset();
-
-        if (endLen == offset) {
-            if ( how != CLONE_CONTENTS )
-                n->setNodeValue(XMLUni::fgZeroLenString);
-        }
-        else {
-            XMLCh* oldNodeValue;
-            XMLCh oldTemp[4000];
-
-            if (offset >= 3999)  {
-                oldNodeValue = (XMLCh*) fMemoryManager->allocate
-                (
-                    (offset+1) * sizeof(XMLCh)
-                );//new XMLCh[offset+1];
-            }
-            else {
-                oldNodeValue = oldTemp;
-            }
-            XMLString::subString(oldNodeValue, txtValue, offset, endLen, ((DOMDocumentImpl *)fDocument)->getMemoryManager());
-
-            if ( how != CLONE_CONTENTS )
-                n->setNodeValue( ((DOMDocumentImpl *)fDocument)->getPooledString(oldNodeValue) );
-
-            if (offset>= 3999)
-                fMemoryManager->deallocate(oldNodeValue);//delete[] oldNodeValue;
-        }
-
-        if ( how==DELETE_CONTENTS )
-            return 0;
-
-        DOMNode* newNode = n->cloneNode( false );
-
-        if (offset == 0) {
-            newNode->setNodeValue(XMLUni::fgZeroLenString);
-        }
-        else {
-            XMLCh* newNodeValue;
-            XMLCh newTemp[4000];
-
-            if (offset >= 3999)  {
-                newNodeValue = (XMLCh*) fMemoryManager->allocate
-                (
-                    (offset+1) * sizeof(XMLCh)
-                );//new XMLCh[offset+1];
-            }
-            else {
-                newNodeValue = newTemp;
-            }
-            XMLString::subString(newNodeValue, txtValue, 0, offset, ((DOMDocumentImpl *)fDocument)->getMemoryManager());
-            newNode->setNodeValue( ((DOMDocumentImpl *)fDocument)->getPooledString(newNodeValue) );
-
-            if (offset>= 3999)
-                fMemoryManager->deallocate(newNodeValue);//delete[] newNodeValue;
-
-        }
-        return newNode;
+        if (n->getNodeType() == DOMNode::PROCESSING_INSTRUCTION_NODE)
+            ((DOMProcessingInstructionImpl*)n)->deleteData(from, to - from);
+        else
+            ((DOMCharacterData*)n)->deleteData(from, to - from);
     }
+
+    return newNode;
 }
 
 /**
@@ -2002,7 +1914,7 @@ void DOMRangeImpl::updateRangeForInsertedText(DOMNode* node, XMLSize_t offset, X
         || type == DOMNode::PROCESSING_INSTRUCTION_NODE))
     {
         if (fStartOffset > offset) {
-            fStartOffset = offset;
+            fStartOffset = fStartOffset+count;
         }
     }
     type = fEndContainer->getNodeType();
